@@ -434,6 +434,7 @@ def _run_impl(case: dict, wall: float = WALL) -> dict:
         # found in VIRTUAL time, so it costs no wall-clock time
         for k, c in sorted(run.pending_call.items()):
             run.ev.append(('call-pending', k, c))
+        run.ev.append(('end-of-window',))        # what follows is the harness shutting the manager down
         for c in run.calls:
             if not c.done():
                 c.cancel()
@@ -592,6 +593,8 @@ def _script(impl: dict) -> tuple[list[str], list[Optional[str]], list[str]]:
     for i, e in enumerate(ev):
         attach(i)
         tag = e[0]
+        if tag == 'end-of-window':
+            return lines, want
         if tag == 'cycle':
             for k, name in e[1]:
                 tid[name] = len(tid)
@@ -1040,6 +1043,44 @@ DIRECTED = [
     {'kind': 'directed-remove', 'slots': 2, 'ops': [
         ['addDownload', 0, 0], ['preq', 0, 0.3], ['net', 0, 'fail', False, 0.3], ['wait', 61.0], ['call', 0, 'remove', None, 0.3],
         ['wait', 1.0]]},
+    # --- round 3: something arrives for the transfer while the call is suspended ---------------------------------------
+    # the peer's PeerTransferRequest arrives in the same step as abort (which waits for the remote-queue attempt it
+    # cancelled): the handler still sees QUEUED and starts an initialisation the call cannot cancel any more; that task
+    # must find the transition refused and end (fixes/C06-init-download-refused.md)
+    {'kind': 'directed-preq-during-abort', 'slots': 2, 'ops': [
+        ['addDownload', 0, 0], ['call', 0, 'abort', None, [['preq', 0]], 0.3], ['net', 0, 'ok', False, 0.3], ['wait', 61.0],
+        ['wait', 1.0]]},
+    {'kind': 'directed-preq-during-pause-teardown', 'slots': 2, 'teardown': 2, 'ops': [
+        ['addDownload', 0, 0], ['call', 0, 'pause', None, [['preq', 2]], 0.3], ['net', 0, 'transferring', False, 0.3],
+        ['wait', 61.0], ['wait', 1.0]]},
+    {'kind': 'directed-preq-during-remove', 'slots': 2, 'teardown': 1, 'ops': [
+        ['addDownload', 0, 0], ['call', 0, 'remove', None, [['preq', 1]], 0.3], ['net', 0, 'ok', False, 0.3], ['wait', 61.0],
+        ['wait', 1.0]]},
+    # INCOMPLETE download, retry delivered (remotely queued, nothing in flight): abort only suspends while it removes the
+    # local file under the state lock; the peer's request arrives then
+    {'kind': 'directed-preq-during-abort-incomplete-idle', 'slots': 2, 'exec_delay': 2, 'ops': [
+        ['addDownload', 0, 0], ['net', 0, 'ok', False, 0.3], ['preq', 0, 0.3], ['net', 0, 'incomplete', False, 0.3],
+        ['net', 0, 'ok', False, 0.3], ['call', 0, 'abort', None, [['preq', 1]], 0.3], ['net', 0, 'ok', False, 0.3],
+        ['wait', 61.0], ['wait', 1.0]]},
+    # the peer's refusal / PeerUploadFailed arrive while pause waits
+    {'kind': 'directed-peerfail-upfail-during-pause', 'slots': 2, 'teardown': 2, 'ops': [
+        ['addDownload', 0, 0], ['call', 0, 'pause', 1, [['upfail', 0], ['peerfail', 1]], 0.3], ['net', 0, 'ok', False, 0.3],
+        ['wait', 1.0]]},
+    # a download that failed without a reason (as read from the cache) is retried by the manager; remove while the retry
+    # hangs, a cycle 1 / 3 iterations later (between the end of the cancelled attempt and the return of remove)
+    {'kind': 'directed-failed-retry-remove-cycle', 'slots': 2, 'ops': [
+        ['addFailed', 0, 0], ['call', 0, 'remove', 1, [], 0.3], ['net', 0, 'ok', False, 0.3], ['wait', 1.0]]},
+    {'kind': 'directed-failed-retry-remove-cycle-teardown', 'slots': 2, 'teardown': 2, 'ops': [
+        ['addFailed', 0, 0], ['net', 0, 'fail-conn', False, 0.3], ['call', 0, 'remove', 3, [['preq', 2]], 0.3],
+        ['net', 0, 'ok', False, 0.3], ['wait', 1.0]]},
+    {'kind': 'directed-failed-retry-delivered-preq', 'slots': 2, 'ops': [
+        ['addFailed', 0, 0], ['net', 0, 'ok', False, 0.3], ['preq', 0, 0.3], ['call', 0, 'abort', 1, [['preq', 1]], 0.3],
+        ['net', 0, 'ok', False, 0.3], ['wait', 1.0]]},
+    # the user aborts an upload; blocking and unblocking the peer / unsharing and resharing the file must not bring it back
+    {'kind': 'directed-abort-upload-block-unblock', 'slots': 2, 'model': False, 'ops': [
+        ['addUpload', 0, 0], ['call', 0, 'abort', None, [], 0.3], ['block', 0, 0.3], ['unblock', 0, 0.3],
+        ['net', 0, 'transferring', False, 0.3], ['unshare', 0, 0.3], ['reshare', 0, 0.3], ['net', 0, 'transferring', False, 0.3],
+        ['wait', 1.0]]},
 ]
 
 
@@ -1073,15 +1114,45 @@ def _features(case, impl) -> set:
             feats.add('peer-request-accepted')
         if e[0] == 'requeue':
             feats.add('requeued')
-    # a cycle between a call and its return
+    # a cycle / a peer message between a call and its return
     open_calls = 0
+    pending: dict = {}
+    late: set = set()
+    returned: set = set()
     for e in ev:
+        if e[0] == 'end-of-window':
+            break
         if e[0] == 'call':
             open_calls += 1
+            pending[e[1]] = (e[2], e[3], e[4])
         elif e[0] in ('resume', 'call-refused'):
             open_calls -= 1
+            pending.pop(e[1], None)
+            if e[0] == 'resume':
+                returned.add(e[1])
         elif e[0] == 'cycle' and open_calls > 0:
             feats.add('cycle-while-call-waits')
+            for k, (c, st, nlive) in pending.items():
+                if c == 'remove' and st == 'FAILED' and nlive > 0:
+                    feats.add('cycle-while-remove-waits-for-retry-of-FAILED-download')
+        elif e[0] == 'preq' and e[1] in pending:
+            feats.add('peer-request-while-call-waits')
+            if e[2]:
+                feats.add('peer-request-while-call-waits-starts-initialisation')
+                late |= {n for _k, n in e[2]}
+                if pending[e[1]][2] == 0:
+                    feats.add('peer-request-while-call-only-removes-file')
+        elif e[0] == 'upfail' and e[1] in pending:
+            feats.add('upload-failed-message-while-call-waits')
+        elif e[0] == 'peerfail' and e[1] in returned and e[2] != e[3] and e[2] not in ('PAUSED',):
+            feats.add('peer-refusal-handled-after-the-call-it-waited-for')
+        elif e[0] == 'tend' and e[1] in late:
+            feats.add('late-initialisation-' + ('refused' if e[2] == 'refused' else 'cancelled-by-remove'
+                                                  if e[2] == 'cancelled' else 'ran'))
+        elif e[0] == 'shares' and any(k in returned for k in e[2]):
+            feats.add('shares-or-block-change-after-returned-call-on-upload')
+    if any(e[0] == 'addFailed' for e in ev):
+        feats.add('failed-without-reason-download')
     # a cycle between a task end and its callback
     ended = set()
     for e in ev:
@@ -1107,31 +1178,50 @@ class C06(Property):
     id = 'C06'
     props_module = 'AioslskVerif.Props.C06'
     driver_module = 'AioslskVerif.Driver.C06'
-    rule = ('1..2 peers x 1..3 transfers per peer (downloads, uploads), then 3..12 ops (thorough ..20) out of: cycle request, '
-            'the pending network step of a transfer task succeeds / fails (optionally with a cycle request in the same '
-            'step), peer transfer request, abort / pause / remove as its own task with a cycle request 0..4 loop iterations '
-            'later, re-queue, waits up to 61 s; delays from {0, .02, .05, .1, .3, 5} s; observation window 120 virtual seconds; '
-            'derived from VERIF_SEED. Non-trivial: a call returned AND (a cycle ran while a task was hanging, or while the '
-            'call was waiting, or between a task end and its done-callback); distinct = distinct canonical case')
+    rule = ('family A (as before): 1..2 peers x 1..3 transfers per peer (downloads, uploads), then 3..12 ops (thorough ..20) '
+            'out of: cycle request, the pending network step of a transfer task succeeds / fails (optionally with a cycle '
+            'request in the same step), peer transfer request, abort / pause / remove as its own task with a cycle request '
+            '0..4 loop iterations later, re-queue, waits up to 61 s; delays from {0, .02, .05, .1, .3, 5} s. Family B (windows '
+            'of a suspended call): the call gets peer events for its transfer (PeerTransferRequest, PeerTransferQueueFailed, '
+            'PeerUploadFailed) and cycle requests in the same step / 0..5 loop iterations later, for abort / pause / remove '
+            'from QUEUED with a hanging attempt, INCOMPLETE with a hanging retry, INCOMPLETE / QUEUED remotely queued with '
+            'nothing in flight (the call is then suspended only by the removal of the local file: executor calls take 1..3 '
+            'iterations), both slots occupied, FAILED-without-reason downloads being retried (attempt hanging / failed / '
+            'delivered); a cancelled network step takes 0..3 iterations to unwind. Family C (monitor-only): uploads, a call, '
+            'then block / unblock of the peer and unshare / reshare of the file through the real manage_shares_changed. '
+            'Observation window 120 virtual seconds; derived from VERIF_SEED. Non-trivial: a call returned AND (a cycle ran '
+            'while a task was hanging, or while the call was waiting, or between a task end and its done-callback, or a peer '
+            'message for the transfer arrived while the call was waiting, or the block list / shares changed after the call '
+            'on an upload returned); distinct = distinct canonical case')
     assumptions = [
         'the network is a scripted stub at the level of send_peer_messages / create_peer_connection / response futures: a '
         '"connection attempt" is the call, a "frame" is its successful return (real sockets / FakeNet are not used here)',
-        'peer transfer requests for one file are separated by at least one loop iteration and do not arrive while a call on '
-        'that transfer is waiting (peer messages injected by the schedule are outside the property)',
-        'TransferManager.queue is only called from the states its docstring lists; no two calls overlap on one transfer',
+        'peer transfer requests for one file are separated by at least one loop iteration; the direct effect of a peer '
+        'message injected by the schedule (e.g. PAUSED -> FAILED by PeerTransferQueueFailed, remotely_queued reset by '
+        'PeerUploadFailed, the allowed=False answer to a PeerTransferRequest) is outside the property and ends / does not '
+        'count in the observation window; what the library then does on its own is inside',
+        'a change of the block list / the shares is a user action on the uploads it covers, except for an upload the user '
+        'aborted or removed: blocking + unblocking (unsharing + resharing) must not bring such an upload back',
+        'TransferManager.queue is only called from the states its docstring lists; no two calls overlap on one transfer; '
+        'user status changes (GetUserStatus: reset of remotely_queued for every download of the peer) are not generated',
         'asyncio semantics (cancellation delivered at the next step of the task, done-callbacks one iteration later) are '
         'modelled as ops and validated only differentially',
     ]
     modelled = ('manage_transfers spawn guards, the two task slots, cancel_tasks, the done-callbacks, abort/pause/remove as '
                 'call + return with arbitrary interleaving, _queue_remotely / _initialize_upload / _initialize_download '
-                'collapsed to first step / end with outcome, peer transfer request, re-queue. Not modelled: which transfers '
-                'a cycle selects (C05; a parameter of the op here), the C03 dispatch-on-stale-state defect, file removal')
+                'collapsed to first step / end with outcome, peer transfer request (also while a call holds the state lock: '
+                'the late initialisation blocks on the lock and is refused / cancelled by remove), the two phases of remove, '
+                'PeerTransferQueueFailed, PeerUploadFailed, re-queue, FAILED-without-reason downloads. Not modelled: which '
+                'transfers a cycle selects (C05; a parameter of the op here), manage_shares_changed (C08; exercised '
+                'monitor-only), file removal (exercised: executor calls suspend), user status')
 
     def _cases(self, seed, tier, widen):
         rng = random.Random(f'C06-{seed}')
-        n = (700 if tier == 'quick' else 10000) * widen
+        n = (600 if tier == 'quick' else 9000) * widen
+        m = (600 if tier == 'quick' else 9000) * widen
         mx = 12 if tier == 'quick' else 20
-        return list(DIRECTED) + [_gen_case(rng, mx) for _ in range(n)]
+        cases = list(DIRECTED) + [_gen_case(rng, mx) for _ in range(n)]
+        return cases + [_gen_window_case(rng, 8 if tier == 'quick' else 12) for _ in range(m)]
 
     def correspondence(self, seed, tier, model_ok, widen=1):
         res = KResult()
@@ -1148,8 +1238,10 @@ class C06(Property):
         scripts = []
         if model_ok:
             lines, spans = [], []
-            for io in impl:
-                ls, want = _script(io)
+            for c, io in zip(cases, impl):
+                # monitor-only cases (block list / shares changes: the library's own abort / re-queue of uploads is not
+                # part of this model, see C08) are not fed to the driver
+                ls, want = _script(io) if c.get('model', True) and not io.get('hang') else ([], [])
                 scripts.append((ls, want))
                 lines.append('reset')
                 spans.append((len(lines), len(ls)))
@@ -1168,9 +1260,14 @@ class C06(Property):
             for f in feats:
                 res.count('feature:' + f)
             if any(f.startswith('call-returned') for f in feats) and feats & {
-                    'cycle-while-task-hangs', 'cycle-while-call-waits', 'cycle-between-task-end-and-callback'}:
+                    'cycle-while-task-hangs', 'cycle-while-call-waits', 'cycle-between-task-end-and-callback',
+                    'peer-request-while-call-waits', 'upload-failed-message-while-call-waits',
+                    'peer-refusal-handled-after-the-call-it-waited-for',
+                    'shares-or-block-change-after-returned-call-on-upload'}:
                 res.nontrivial_keys.add(common.sha(c['ops']))
-            if model is not None and not io.get('hang'):
+            if c.get('model', True) is False:
+                res.count('monitor-only')
+            elif model is not None and not io.get('hang'):
                 res.traces_validated += 1
                 ls, want = scripts[i]
                 d = _compare(ls, want, model[i])
